@@ -200,6 +200,18 @@ def xml_to_tupletree_sax(xml_string, meaning, conn_id=None):
             conn_id=conn_id)
         raise pe.with_traceback(org_tb)  # ignore this call in traceback!
 
+    except (LookupError, ValueError) as exc:
+
+        # The expat parser raises LookupError, ValueError or UnicodeError when
+        # the XML declaration specifies an encoding that is unknown or not
+        # supported (e.g. multi-byte encodings).
+        org_tb = sys.exc_info()[2]
+        pe = XMLParseError(
+            _format("XML parsing error encountered in {0}: {1}",
+                    meaning, exc),
+            conn_id=conn_id)
+        raise pe.with_traceback(org_tb)  # ignore this call in traceback!
+
     return handler.root
 
 
